@@ -276,7 +276,7 @@ fn op_compare(cx: &mut Ctx, a: &[u8], b: &[u8], pl: Place) {
     check!(cx, cell, &cj, isign(fast_compare_cache_optimized(sa, sb)), want, "sign(fast_compare_cache_optimized)");
     check!(cx, cell, &cj, isign(ops.compare_cache_optimized(sb, sa)), -want, "sign(compare_cache_optimized(b,a))");
     if let Ok(v) = guarded(|| ops.compare(sa, sb)) {
-        cx.coq(0, a, b, memops_width(&cx.disable), Some(vec![v as i128]), &cj);
+        cx.coq(0, a, b, memops_width(&cx.disable), Some(vec![isign(v) as i128]), &cj);
         cx.coq(18, a, b, 0, Some(vec![isign(v) as i128]), &cj);
     }
     // io::simd_memory::search::compare_strings and string::simd_search::sse42_strcmp (Ordering)
@@ -811,14 +811,11 @@ fn run_one(cx: &mut Ctx, c: &Value) {
 // ---------------------------------------------------------------------------------------------
 // generators
 // ---------------------------------------------------------------------------------------------
-fn lengths(thorough: bool, r: &mut Rng) -> Vec<usize> {
-    let mut v: Vec<usize> = if thorough { (0..=130).collect() } else {
-        let mut v: Vec<usize> = (0..=40).collect();
-        v.extend_from_slice(&[47, 48, 49, 63, 64, 65, 66, 79, 80, 81, 95, 96, 97, 111, 112, 113, 127, 128, 129, 130]);
-        for _ in 0..8 { v.push(r.range(41, 130) as usize); }
-        v
-    };
-    if thorough { v.extend(4090..=4100); } else { v.extend_from_slice(&[255, 256, 257, 4095, 4096, 4097, 4100]); }
+fn lengths(_thorough: bool, r: &mut Rng) -> Vec<usize> {
+    let mut v: Vec<usize> = (0..=130).collect();
+    v.extend(4090..=4100);
+    v.extend_from_slice(&[255, 256, 257, 511, 512, 513, 1023, 1024, 1025]);
+    for _ in 0..6 { v.push(r.range(131, 4089) as usize); }
     v
 }
 fn rand_place(r: &mut Rng) -> Place {
@@ -862,7 +859,7 @@ fn rand_utf8(r: &mut Rng, n: usize) -> Vec<u8> {
 fn generate(cx: &mut Ctx, thorough: bool) {
     let mut r = cx.rng.clone();
     let lens = lengths(thorough, &mut r);
-    let reps = if thorough { 6 } else { 1 };
+    let reps = if thorough { 12 } else { 2 };
     // 1. every length x a few placements: compare / find_byte / copy / fill / utf8 / crc / codecs
     for &n in &lens {
         for rep in 0..(2 * reps) {
@@ -924,10 +921,9 @@ fn generate(cx: &mut Ctx, thorough: bool) {
         }
     }
     // 3. substring search: needle lengths around 1, 4, 15..17, 31..33; match at every kind of position or absent
-    let nsub = if thorough { 6000 } else { 700 };
+    let nsub = if thorough { 40000 } else { 4000 };
     for _ in 0..nsub {
-        let n = *r.pick(&lens[..lens.len() - 7]);
-        let n = if n > 130 { 130 } else { n };
+        let n = r.below(131) as usize;
         let m = *r.pick(&[0usize, 1, 2, 3, 4, 5, 8, 15, 16, 17, 20, 31, 32, 33, 40]);
         let alpha = *r.pick(&[2u64, 3, 200]);
         let mk = |r: &mut Rng, k: usize| -> Vec<u8> { (0..k).map(|_| if alpha == 200 { 0x60 + r.below(0x90) as u8 } else { b'a' + r.below(alpha) as u8 }).collect() };
@@ -948,7 +944,7 @@ fn generate(cx: &mut Ctx, thorough: bool) {
         op_find_any(cx, &h2, &set, pl);
     }
     // 4. strings: case conversion, hashing, wildcard
-    let nstr = if thorough { 6000 } else { 600 };
+    let nstr = if thorough { 40000 } else { 4000 };
     for _ in 0..nstr {
         let n = r.below(80) as usize;
         let mut a: Vec<u8> = (0..n).map(|_| *r.pick(&[b'a', b'b', b'Z', b'A', b'z', b'@', b'[', b'`', b'{', b'0'])).collect();
@@ -968,7 +964,7 @@ fn generate(cx: &mut Ctx, thorough: bool) {
         op_strings(cx, &a, &p, r.next(), rand_place(&mut r));
     }
     // 5. bit helpers
-    let nbits = if thorough { 20000 } else { 1500 };
+    let nbits = if thorough { 100000 } else { 8000 };
     let specials = [0u64, 1, u64::MAX, 1 << 63, 0x8000_0000, 0xFFFF_FFFF, 0x1_0000_0000, 0x5555_5555_5555_5555, 0xAAAA_AAAA_AAAA_AAAA];
     for i in 0..nbits {
         let x = if i % 5 == 0 { *r.pick(&specials) } else { r.next() & r.next() | (r.next() & r.next() & r.next()) };
@@ -1033,7 +1029,7 @@ fn corpus_dir() -> String {
     exe.and_then(|p| p.ancestors().nth(4).map(|r| r.join("corpus/C14").to_string_lossy().to_string())).unwrap_or_else(|| "/verif/corpus/C14".into())
 }
 
-const RULE: &str = "per dispatch tier (native, avx512 masked, avx512+avx2 masked, everything masked; one process each through the ZIPORA_VERIF_DISABLE hook): lengths 0..=40 plus vector-width boundaries up to 130, 255..257, 4095..4100 (all of 0..=130 and 4090..=4100 in the thorough tier) x placements flush against a guard page at either end, 64-byte aligned, or a random alignment 0..63 straddling a page boundary; all 64 alignments of both buffers on lengths 15..17/31..33/63..65/100; needles at first/last/chunk-boundary positions and absent; bytes >= 0x80; UTF-8 pieces (valid 1-4 byte boundary code points, overlong, surrogate, > U+10FFFF, truncated, stray continuation) placed at chunk boundaries and at the end; a case is non-trivial when the input is at least one SSE vector long (bit helpers: non-zero operands); distinct = distinct canonical case text";
+const RULE: &str = "per dispatch tier (native, avx512 masked, avx512+avx2 masked, everything masked; one process each through the ZIPORA_VERIF_DISABLE hook): every length 0..=130 and 4090..=4100 plus 255..257, 511..513, 1023..1025 and random lengths up to 4089, each under several placements: flush against a PROT_NONE guard page at either end, 64-byte aligned, or a random alignment 0..63 straddling a page boundary; all 64 alignments of both buffers on lengths 15..17/31..33/63..65/100; needles at first/last/chunk-boundary positions and absent, surrounded by needle bytes outside the slice; bytes >= 0x80; UTF-8 pieces (valid 1-4 byte boundary code points, overlong, surrogate, > U+10FFFF, truncated, stray continuation) placed at chunk boundaries and at the end; substring needles of 0..40 bytes over 2/3/144-letter alphabets; character sets of 1..20 members with zero bytes in the haystack; bit helpers on special and random words with indices up to u32::MAX; a case is non-trivial when the input is at least one SSE vector long (bit helpers: non-zero operands); distinct = distinct canonical case text";
 
 pub fn run(args: &Args) {
     if std::env::var("ZV_C14_CHILD").is_ok() { child(args); return; }
